@@ -160,6 +160,9 @@ Fixpoint vm_from (doc : did_doc) (rels : list vrel) (id : bytes) : option vmetho
   | VRef rid :: r => if bytes_eqb rid id then vm_by_id (doc_vms doc) rid else vm_from doc r id
   end.
 
+(** math.MaxUint64: the sequence is a uint64 *)
+Definition max_seq : N := 18446744073709551615.
+
 Section Crypto.
   (** cryptography and serialisation supplied from outside (see trusted base):
       [b58key s] = the 33-byte secp256k1 key that base58 string [s] denotes, if it does;
@@ -171,7 +174,8 @@ Section Crypto.
   Definition es256k (t : bytes) : bool :=
     bytes_eqb t GenConst.key_type_es256k_2019 || bytes_eqb t GenConst.key_type_es256k_2018.
 
-  (** keeper.VerifyDIDOwnership: returns the next sequence *)
+  (** keeper.VerifyDIDOwnership: returns the next sequence.  types.Verify refuses a proof over the last uint64
+      sequence (finding F15: the increment used to wrap around to the initial sequence) *)
   Definition verify_ownership (sign_data : did_doc) (seq : N) (doc : did_doc) (vmid sig : bytes) : outcome N :=
     match vm_from doc (doc_auth doc) vmid with
     | None => Err cs_did 8
@@ -180,7 +184,7 @@ Section Crypto.
         else match b58key (vm_pubkey58 vm) with
              | None => Err cs_did 10
              | Some pk =>
-                 if verify pk (signbytes (marshal sign_data) seq) sig then Ok (seq + 1) else Err cs_did 9
+                 if verify pk (signbytes (marshal sign_data) seq) sig && negb (seq =? max_seq) then Ok (seq + 1) else Err cs_did 9
              end
     end.
 
@@ -252,9 +256,17 @@ Fixpoint init_did (g : did_genesis) (st : did_state) : did_state :=
   | (did, e) :: r => init_did r (set (did_key did) e st)
   end.
 
-Definition validate_did_genesis (g : did_genesis) : bool :=
-  forallb (fun p => validate_did (fst p) &&
-                    match en_doc (snd p) with Some d => doc_valid d | None => false end) g.
+(** GenesisState.Validate, entry by entry.  [strict] = as repaired (finding F14): an entry is a tombstone or a
+    document about the DID it is filed under; with [false] it is the original code, which checked the key and the
+    document separately. *)
+Definition validate_did_entry (strict : bool) (p : bytes * did_entry) : bool :=
+  validate_did (fst p) &&
+  match en_doc (snd p) with
+  | Some d => doc_valid d && (negb strict || entry_deactivated (snd p) || bytes_eqb (doc_id d) (fst p))
+  | None => false
+  end.
+Definition validate_did_genesis_gen (strict : bool) (g : did_genesis) : bool := forallb (validate_did_entry strict) g.
+Definition validate_did_genesis : did_genesis -> bool := validate_did_genesis_gen true.
 
 (** ** stateless validation of the three messages.
     [strict] = the repaired validators: create/update need a present, non-empty document whose id is
